@@ -11,7 +11,10 @@ def canon_file(path):
     if os.path.basename(path) == "inventory.json":
         try:
             j = json.loads(b)
-            for blk in [j.get("manifest", {})] + [v.get("state", {}) for v in j.get("versions", {}).values()]:
+            # which of several identical staged files survives deduplication is not determined
+            # (hash-map order): the manifest is compared as digest -> number of content paths per version
+            j["manifest"] = {k: sorted(p.split("/")[0] for p in v) for k, v in j.get("manifest", {}).items()}
+            for blk in [v.get("state", {}) for v in j.get("versions", {}).values()]:
                 for k in list(blk):
                     blk[k] = sorted(blk[k])
             return "inv:" + hashlib.sha256(json.dumps(j, sort_keys=True).encode()).hexdigest()[:16]
@@ -29,17 +32,24 @@ def canon_file(path):
 
 
 def canon_obj(sb, oroot):
-    """semantic snapshot of the object at `oroot` (relative to the storage root), or {} if absent"""
+    """semantic snapshot of the object at `oroot` (relative to the storage root), or {} if absent.
+    Content files are recorded by version directory and content hash (not by name, see canon_file)."""
     base = os.path.join(sb.root, oroot)
     out = {}
     if not os.path.isdir(base):
         return out
     for d, dirs, files in os.walk(base):
         rel = os.path.relpath(d, base)
-        if rel != ".":
+        parts = rel.split("/")
+        in_content = len(parts) >= 2 and re.fullmatch(r"v\d+", parts[0]) is not None
+        if rel != "." and not (in_content and len(parts) > 2):
             out[rel] = "d"
         for f in files:
-            out[os.path.normpath(os.path.join(rel, f))] = canon_file(os.path.join(d, f))
+            if in_content:
+                k = "%s/%s/#%s" % (parts[0], parts[1], canon_file(os.path.join(d, f)))
+                out[k] = out.get(k, 0) + 1
+            else:
+                out[os.path.normpath(os.path.join(rel, f))] = canon_file(os.path.join(d, f))
     return out
 
 
@@ -222,16 +232,20 @@ def judge_kill(sb, case, obs):
         top = k.split("/")[0]
         if re.fullmatch(r"v\d+", top) and top != v and obs["T"].get(k) != x:
             fails.append("%s: previously committed %s changed or vanished" % (what, k))
-    staged = phys.tree(obs["staged_dir"]) if os.path.isdir(obs["staged_dir"]) else {}
-    main = phys.tree(os.path.join(sb.root, obs["oroot"])) if os.path.isdir(os.path.join(sb.root, obs["oroot"])) else {}
-    sb2 = phys.tree(os.path.join(sb.root, obs["oroot"], v)) if False else None
-    newfiles = {k: x for k, x in obs["T_new"].items() if k.startswith(v + "/") and x != "d" and not k.split("/")[-1].startswith("inventory.json")}
-    for k, x in newfiles.items():
-        in_main = k in main and hashlib.sha256(open(os.path.join(sb.root, obs["oroot"], k), "rb").read()).hexdigest()[:16] == x
-        sp = os.path.join(obs["staged_dir"], k)
-        in_stage = os.path.isfile(sp) and hashlib.sha256(open(sp, "rb").read()).hexdigest()[:16] == x
-        if not (in_main or in_stage):
-            fails.append("%s: content file %s of the version being committed is in full neither in staging nor in the object" % (what, k))
+    # every content of the version being committed exists in full in the staging area or in the object
+    want = sorted(k.split("#")[1] for k in obs["T_new"] if k.startswith(v + "/") and "#" in k)
+
+    def hashes(top):
+        out = set()
+        for d, _, files in os.walk(top):
+            for f in files:
+                if not f.startswith("inventory.json"):
+                    out.add(hashlib.sha256(open(os.path.join(d, f), "rb").read()).hexdigest()[:16])
+        return out
+    have = hashes(os.path.join(obs["staged_dir"], v)) | hashes(os.path.join(sb.root, obs["oroot"], v))
+    for x in want:
+        if x not in have:
+            fails.append("%s: a content file (sha256 %s…) of the version being committed is in full neither in staging nor in the object" % (what, x))
     if obs["cls"] == "other":
         r = sb.run(["validate", case.oid])
         if r["rc"] != 2:
